@@ -2,6 +2,7 @@ import Driver.Util
 import Driver.DictRt
 import Driver.Codec
 import Spec.DictSpec
+import Model.Find
 /-! Driver.Dict — the `dict` correspondence domain (C17): generated dictionary sets, queries. -/
 namespace DV.Drv
 open DV.Spec
@@ -122,5 +123,25 @@ def judgeDict (i : Intern) (setTok : String) (k : Option Nat) (qsTok : String) (
     (i', { model := modelOut,
            fails := (if lost.isEmpty then [] else ["C17:resolvable-before-unresolvable-after-load"]),
            tags := [s!"mono files={fs.length} k={k} queries={qs.length}"] })
+
+/-- `codec findn app=<a> sets=<specA>^<specB> name=<n> mode=<first|all> <tree> => <r1> | <r2>`:
+    the same by-name search in two messages that differ only in their dictionary -/
+def judgeFindN (i : Intern) (app : Nat) (setsTok name mode : String) (as : List AVP) (impl : List String) : Intern × Judged :=
+  let specs := setsTok.splitOn "^"
+  let step := fun (acc : Intern × List String) (spec : String) =>
+    let (i1, fs) := parseSpec acc.1 spec
+    let (i2, nid) := i1.get name
+    let p := (loadFiles fs).1
+    let r := match p.findName Gen.parentAppIds (chainFuel Gen.parentAppIds) app nid UndefinedVendorID with
+      | none => "err"
+      | some d =>
+        if mode = "first" then (match findFirstL d.code as with | some a => showAVPs [a] | none => "err")
+        else (let r := findAllL d.code as; if r.isEmpty then "err" else showAVPs r)
+    (i2, acc.2 ++ [r])
+  let (i', rs) := specs.foldl step (i, [])
+  let out := " | ".intercalate rs
+  (i', { model := out,
+         fails := if " ".intercalate impl ≠ out then ["C20:name-not-resolved-through-the-message-dictionary"] else [],
+         tags := [s!"findn mode={mode}"] })
 
 end DV.Drv
